@@ -135,7 +135,7 @@ ADD = {
 	'C02': 'Rounds 5-6: candidate order of every tag as theorems over the generated resolver table; every match_feature body pinned by a translator (match_feature_consts/_owners/_words), classify_enum / classify_class_def for any number and position of bases; node kind compared wherever classification goes by a name.',
 	'C03': 'Rounds 5-6: member_depth_first (multiple inheritance, tree-shaped hierarchies), Model/InferOps (try_operation over user classes incl. the inherits loop, spread): user_operator_left_decides, user_chain_type, spread_items, sound_spread with counterexample theorems for the listed findings.',
 	'C04': 'Rounds 5-6: Modules.load, the four unload methods, Py2Cpp.transpile and Interactive.rebuild_module are read from the source as programs and proved equal to the model (load_generated, unload_generated, transpile_generated, resubmit_generated); the shipped library closure generated and decided (lib_closure_reach, lib_closure_closed, baseWorld_load_shipped_partial); failed_load_leaves_no_residue for every failure kind.',
-	'C05': 'Rounds 5-6: the tree key follows the generated identity (tree_key_inputs, tree_key_covers_bytes: the key covers the file bytes exactly when the identity holds the content hash, as it does after fix 0f5d… in /repo); old-generation and recurring-mtime histories in the search.',
+	'C05': 'Rounds 5-6: the tree key follows the generated identity (tree_key_inputs, tree_key_covers_bytes: the key covers the file bytes exactly when the identity holds the content hash, as it does after fix fe592d9 in /repo); old-generation and recurring-mtime histories in the search.',
 	'C06': 'Rounds 5-6: compared_inputs_distinct (the five compared header fields read five pairwise different source expressions, generated), skip_implies_equal_header_inputs, writer model (whole-content write) tied by a Writer stream; forced reference run into an empty directory.',
 	'C07': 'Rounds 5-6: the interactive loop with requests as lists of lines and the exit test read from the source (quit_test_total, request_survives, session_survives, tty_request_shape), unload_clears_importers, writer_flush_outcome; every provoked error is rendered through ErrorRender for every node.',
 	'C08': 'Rounds 5-6: generated table of every comparison of a user-controlled name with constant words and the type guards around it (name_sites_guarded), site_table_defects, view-helper model; renamings that create or destroy a prefix/suffix/infix relation between every pair of identifiers that can meet.',
